@@ -115,6 +115,7 @@ var extraTexts = []string{
 	"send [USD 1] ( source = { @a allowing unbounded overdraft max from } destination = @d )", "send [USD 1] ( source = { @world max [USD 1] from } destination = @d )", "send [USD *] ( source = { @a @world 1/2 } destination = @d )",
 	"vars { monetary $c }\nsend [USD 1] ( source = @a destination = { max $c remaining to @b } )", "vars { monetary $c }\nsend [USD 1] ( source = @a destination = { max $c to @b max [USD 5] } )", "send [USD 1] ( source = @a destination = { 1/2 } )",
 	"vars { portion $p }\nsend [USD 1] ( source = @a destination = { $p to @b 1/2 } )", "send [USD 1] ( source = @a destination = { 1/2 to @b remaining } )", "send [USD 1] ( source = @a destination = { max [USD 1] to remaining kept } )",
+	"set_tx_meta(\"dir\", \"C:\\\")", "set_tx_meta(\"k\", \"a\\\"", "vars { number $a number $b number $c number $d number $e number $f number $g }", "vars { number $a number $b number $c number $d number $e number $f number $g }\nset_tx_meta(\"k\", $c)",
 	"send $x ( source = $y destination = $z )", "vars { account $a account $a } send [USD *] ( source = $a destination = $a )",
 	"send [USD 1] ( source = @a destination = @b ) é", "set_tx_meta(\"é\", \"ü\")", "vars { string $é }", "send [USD 1 (", "send ] (", "} } }", "$ $ $", "@ @", "[ ] [", "max max max", "remaining", "kept",
 }
